@@ -9,14 +9,20 @@ NOTE = ("Trusted base: TLC/SANY 1.8.0 + CommunityModules, rustc/cargo, the harne
 
 TRACE_TECH = "TLA+ spec (ring-generic operators over Z_P) with its laws model-checked by TLC on the spec; calls recorded from the real code on exact-rational/integer operands validated by TLC trace validation (code->spec conformance), both storage layouts"
 
+SYM_TECH = (TRACE_TECH + "; SYMBOLIC LANE: the same generic code is run on free symbols (harness element type Sym, field of fractions of "
+            "Z[x1..xn]) and the polynomial / rational function it returns is compared by TLC with the specification's, computed in the free "
+            "commutative ring VekPoly (fourth ring of VekField) - an identity in all entries, not a sample; the same ring checks the specification's "
+            "own laws as polynomial identities (Law_Mat_*_S)")
+
 CLAIMS = {
  "C01": dict(
-  technique=TRACE_TECH,
+  technique=SYM_TECH,
   text=("TLC model-checks the ring laws of the specification's matrix operators (identity, associativity, transpose of a product, row-vector form, bilinearity, adjugate identities) "
         "exhaustively over Z_2/Z_3 for 2x2 and on random operand tuples over Z_46337 for 2x2, 3x3, 4x4. Every product and element-wise operator form of the real code "
         "(sizes 2,3,4; layout pairs rr, cc, rc, cr; owned and compound-assignment; matrix*vector, vector*matrix, scalar forms, identity/zero/one/default/is_zero, the six Vec4-as-Mat2 helpers) "
         "is executed on exact rationals and on i32/i64/f32/f64, recorded, and each record is recomputed by TLC from the specification. Inputs are sampled, so 'for all inputs' is "
-        "reached in the Schwartz-Zippel sense, not symbolically."),
+        "reached in the Schwartz-Zippel sense, not symbolically."
+        " SYMBOLIC LANE (added): every product and element-wise form is also executed on matrices, vectors and scalars of DISTINCT FREE SYMBOLS; the returned polynomials are compared by TLC with the specification's polynomials in the free commutative ring (canonical forms), which decides those forms for every input in every commutative ring; the laws of the specification are also checked as polynomial identities (Law_Mat_2/3/4_S). The rational and native lanes remain sampling."),
   design="§6 C01, §12"),
  "C02": dict(
   technique="TLA+ spec of element-wise lifting over opaque terms (VekVec) and an exhaustive TLC model of the integer operators (MC_Vec); calls recorded from the real code on an opaque-term element type validated structurally by TLC trace validation (parametricity gives all inputs)",
@@ -34,40 +40,45 @@ CLAIMS = {
         "the stored lines of a row-major and of a column-major refinement always abstract to the machine's matrix. Every enumerated program (and long random ones, which also exercise apply/"
         "apply2/numcast/broadcast_diagonal(trace)) is replayed on a real row-major and a real column-major value side by side; after every call both values are projected through five independent "
         "routes - (row,col) indexing, into_row_array, into_col_array, the flat slice view read with the OpenGL transpose flag, and Display - and TLC requires all ten projections to equal the abstract "
-        "matrix, the flag to match the layout and the slice to be in the order its name says. map_rows/map_cols, diagonal, trace and the counts are single records."),
+        "matrix, the flag to match the layout and the slice to be in the order its name says. map_rows/map_cols, diagonal, trace and the counts are single records."
+        ' Display is additionally exercised with format parameters (precision, sign, width), which must reach every element in both layouts.'),
   design="§6 C03, §12"),
  "C04": dict(
-  technique=TRACE_TECH,
+  technique=SYM_TECH,
   text=("TLC model-checks on the specification (random tuples over Z_46337 with c,s free on the unit circle; exact rationals for the orientation laws) that RotX/Y/Z, the 2D rotation and "
         "Rodrigues' formula are orthogonal with determinant +1, compose additively about a common axis, fix their axis, turn counter-clockwise in a right-handed frame, agree with each other on the "
         "basis axes, embed as the upper-left block, and equal the matrix of the half-angle quaternion. Every rotation builder of the real code (rotation_/rotated_/rotate_ x,y,z,3d on Mat2/Mat3/Mat4 in "
         "both layouts, non-normalised axes, From<Quaternion> for Mat3/Mat4, the 12 quaternion rotation builders, Vec2 rotation) is executed on angle tokens with exact rational cos/sin and each "
-        "recorded result is recomputed by TLC (cos/sin rebuilt from the token, axis length witnessed and checked)."),
+        "recorded result is recomputed by TLC (cos/sin rebuilt from the token, axis length witnessed and checked)."
+        " SYMBOLIC LANE (added): rotation_x/y/z, rotated_*, rotate_* on every matrix type and layout, From<Quaternion>, the axis-aligned quaternion builders and Vec2 rotation are also executed with free symbols as matrix entries and a symbolic angle whose (cos, sin) are paired free symbols; the returned polynomials in (c, s, entries) equal the specification's - for every angle and operand. rotation_3d about a free axis needs a square root and stays with the exact-rational lane (now also on very short and very long axes)."),
   design="§6 C04, §12"),
  "C05": dict(
-  technique=TRACE_TECH,
+  technique=SYM_TECH,
   text=("TLC model-checks on the specification the Hamilton algebra laws (associativity, identity, multiplicative norm, conjugate reverses products, two-sided inverse, ij=k), the identity "
         "q v conj(q) - M(q) v = (N(q)-1) v for all q, composition of actions and that M is a homomorphism on unit quaternions. Every quaternion operator, conversion, q*Vec3/q*Vec4 (unit and non-unit q), "
         "normalisation, rotation_from_to_3d (Quaternion, Mat3, Mat4, both layouts; opposite, parallel and general direction pairs with rational geometry) and into_angle_axis of the real code is "
         "executed on exact rationals; formula-valued results are recomputed by TLC, from-to and angle-axis results are tested by TLC against what they must do (map from/|from| onto to/|to| as a unit / "
-        "proper rotation; Rodrigues(angle, axis) equals the quaternion's matrix)."),
+        "proper rotation; Rodrigues(angle, axis) equals the quaternion's matrix)."
+        ' SYMBOLIC LANE (added): Hamilton product, sum, difference, negation, conjugate, dot, squared norm, scalar multiple, q*Vec3, q*Vec4, (p*q)*v = p*(q*v) and all conversions are also executed on free symbols (8-11 symbols) and compared as polynomials. Angle-axis extraction is additionally exercised at w = -1 exactly (full turn).'),
   design="§6 C05, §12"),
  "C06": dict(
-  technique=TRACE_TECH,
+  technique=SYM_TECH,
   text=("TLC model-checks on the specification that the Leibniz determinant is transpose-invariant and multiplicative, that A*adj(A)=adj(A)*A=det(A)*I and that the "
         "cofactor inverse is two-sided (exhaustive over Z_2/Z_3 for 2x2; random tuples over Z_46337 for 2x2..4x4). Every determinant and inverse entry point of the real code "
         "(determinant of Mat2/3/4 in both layouts, also after transposition and after layout conversion; inverted/invert, inverted_affine_transform_no_scale, "
         "inverted_affine_transform and their in-place forms in both layouts, on dense, sparse, rigid and translation*rotation*scale matrices built from exact rational rotations "
         "with scales from 2^-19 to 8) is executed on exact rationals (and i32/i64/f32/f64 for determinants), recorded, and TLC recomputes each result from the specification and "
-        "multiplies the recorded inverse back to the identity on both sides. Inputs are sampled, not symbolic."),
+        "multiplies the recorded inverse back to the identity on both sides. Inputs are sampled, not symbolic."
+        ' SYMBOLIC LANE (added): determinants of matrices of 4/9/16 free symbols are compared with the Leibniz polynomial; the general 4x4 inverse of a matrix of 16 free symbols (and of affine / triangular / checkerboard symbol patterns) is returned by the code as numerators N over one denominator D and TLC checks the rational-function identity A*N = N*A = D*I with D # 0, fraction-free - the inverse for every matrix at once; the rigid fast inverse is compared as a polynomial matrix.'),
   design="§6 C06, §12"),
  "C07": dict(
-  technique="TLA+ builder-chain state machine (MC_Chain) explored exhaustively by TLC; every enumerated chain replayed on the real code (both layouts, returning and in-place forms) and the recorded matrices validated by TLC trace validation",
+  technique="TLA+ builder-chain state machine (MC_Chain) explored exhaustively by TLC; every enumerated chain replayed on the real code (both layouts, returning and in-place forms) and the recorded matrices validated by TLC trace validation; symbolic lane: the same code run on free symbols, the returned polynomials compared by TLC in the free commutative ring VekPoly (all inputs at once)",
   text=("TLC explores every builder chain of up to 3 (quick) / 4 (thorough) calls for each matrix size over {translate_2d/3d, scale_2d/3d, shear_x/y, rotate_x/y/z/3d} and checks on the "
         "specification that the accumulated matrix acts on a point like the steps applied one after the other in call order; the laws run also checks each constructor against its point-wise "
         "definition (translation leaves directions alone, w=1/w=0 helpers) and the Transform map p -> position + orientation*(scale . p). Every enumerated chain is replayed on the real row-major "
         "and column-major types in returning and in-place form with random exact parameters; the matrix after every call, all constructors, mul_point/mul_direction(_2d), Mat4::from(Transform) "
-        "(uniform and non-uniform scale, default) and longer random chains are recorded and recomputed by TLC."),
+        "(uniform and non-uniform scale, default) and longer random chains are recorded and recomputed by TLC."
+        " SYMBOLIC LANE (added): every TLC-enumerated chain without the free-axis rotation is also replayed with a fresh symbol for every parameter and symbol pairs (cos, sin) for the angles; the matrix after each call is compared with the specification's product as a polynomial matrix (all parameters at once), as are the constructors, mul_point/mul_direction(_2d) on symbolic matrices, Mat4::from(Transform) on 10 free symbols and local_to_basis/basis_to_local on 12."),
   design="§6 C07, §12"),
  "C08": dict(
   technique="TLA+ spec with two layers (corner axioms + entry-wise formulas); TLC model-checks that every formula satisfies its axioms; matrices recorded from the 21 real constructors validated against formula and axioms by TLC trace validation",
@@ -81,7 +92,8 @@ CLAIMS = {
   text=("TLC checks over exact rationals that the textbook frame matrix satisfies the look-at axioms and that local_to_basis/basis_to_local place origin and axes and invert each other on "
         "orthonormal bases. Every look_at_lh/rh, deprecated look_at, model_look_at_* call (both layouts) is executed on rational orthonormal frames with free eye, distance and up vector and the "
         "recorded matrix is tested by TLC against the axioms of the statement (rigid, det +1, eye -> origin, target -> (0,0,+-d) with the sign of the handedness, up in the upper half-plane; model "
-        "matrix = inverse, origin -> eye), which determine it uniquely; change-of-basis results are recomputed and re-applied to origin and axes. Exact sampling, not symbolic in eye/target/up."),
+        "matrix = inverse, origin -> eye), which determine it uniquely; change-of-basis results are recomputed and re-applied to origin and axes. Exact sampling, not symbolic in eye/target/up."
+        ' The look-at builders are additionally run on up vectors scaled by 2^-30 .. 2^20 (the axioms are invariant under positive scaling of up, a law checked on the specification).'),
   design="§6 C09, §12"),
  "C10": dict(
   technique=TRACE_TECH,
@@ -97,16 +109,18 @@ CLAIMS = {
         "spatial vector types (dimensions 2 to 64) the real code is executed on exact rationals and every result is validated by TLC in the ordered field of rationals: dot/magnitude_squared/"
         "distance_squared/reflected/cross/determine_side/areas/homogenised recomputed; magnitude, distance and the four normalisation forms validated as m^2=|v|^2, m>=0, m*unit=v, |unit|=1 (try_normalized "
         "refusing only the zero vector, float threshold classes); refraction incl. total internal reflection and the critical angle; face_forward for negative/zero/positive dot; angle_between as a "
-        "token angle in [0,pi] with the right cosine, and in degrees on right/straight/zero angles; Vec3 slerp hitting its ends and interpolating lengths linearly (also clamped)."),
+        "token angle in [0,pi] with the right cosine, and in degrees on right/straight/zero angles; Vec3 slerp hitting its ends and interpolating lengths linearly (also clamped)."
+        ' angle_between is additionally checked on f32/f64 for multiples of 45 degrees between vectors that are both very short, ordinary or very long (independent of length).'),
   design="§6 C11, §12"),
  "C12": dict(
-  technique="TLA+ spec (VekLerp, VekOps!LerpInt) with its laws model-checked by TLC; TLC-emitted integer tables replayed into the real code (spec->code); generic/quaternion/Transform/Transition interpolation recorded from the code and validated by TLC (code->spec)",
+  technique="TLA+ spec (VekLerp, VekOps!LerpInt) with its laws model-checked by TLC; TLC-emitted integer tables replayed into the real code (spec->code); generic/quaternion/Transform/Transition interpolation recorded from the code and validated by TLC (code->spec); symbolic lane: the same code run on free symbols, the returned polynomials compared by TLC in the free commutative ring VekPoly (all inputs at once)",
   text=("TLC checks on the specification that the fast and precise formulas agree, hit the endpoints, are affine in the factor and extrapolate, that clamped = unclamped o clamp01, that the "
         "constructive slerp stays unit, reaches both ends (far end up to sign) along the shorter arc in equal steps, and that LerpInt is the real value rounded to nearest with ties away from zero. "
         "TLC prints LerpInt(from,to,j/8) for every far endpoint of i8/u8, every near endpoint (thorough; boundary set in quick) and 25 factors in [-1,2]; the harness runs the integer implementations (f32/f64 x fast/precise, "
         "reference, range and clamped forms, scaled copies for the 8 wider integer types, vector lifts) on every entry. All Lerp forms of the 13 vector types (inherent/trait, value/reference, scalar/"
         "per-element factor, range, clamped), float scalars on dyadic operands, unnormalised and normalised quaternion lerp, quaternion slerp (inherent/trait/ref/clamped; acute and obtuse pairs), "
-        "Transform lerp and all Transition accessors/constructors/mappers are recorded on exact rationals with token angles and recomputed by TLC."),
+        "Transform lerp and all Transition accessors/constructors/mappers are recorded on exact rationals with token angles and recomputed by TLC."
+        ' SYMBOLIC LANE (added): the unclamped lerp forms (inherent with scalar and per-element factor; trait by value, by reference and over a range; fast and precise) of ten vector types and the un-normalised quaternion forms are also executed on free symbols and compared with the polynomials from + t (to - from) and from (1 - t) + to t.'),
   design="§6 C12, §12"),
  "C13": dict(
   technique="TLA+ spec of boxes as the point sets they denote (VekGeom); results recorded from the real code for all boxes / pairs of a small grid validated pointwise by TLC trace validation",
@@ -115,15 +129,17 @@ CLAIMS = {
         "recorded result pointwise: closed-interval membership, union = least box containing both point sets, intersection = exactly the common points (invalid iff none), containment = subset, "
         "collision of positive-extent boxes = interiors share a point (touching faces do not), expansion to a point, splits covering the box and sharing exactly the slice, centre/size/half size, "
         "projection = nearest grid point of the box, validity repair, map/as_, the box<->rectangle conversions, every rectangle method against the box method on the converted value, and the "
-        "collision vector making the boxes touch per axis. Thorough enumerates all 65536 ordered pairs of 2D boxes (8 TLC shards); quick a seeded sample."),
+        "collision vector making the boxes touch per axis. Thorough enumerates all 65536 ordered pairs of 2D boxes (8 TLC shards); quick a seeded sample."
+        ' Expansion of inside-out receivers (result contains the point; in-place = returning form) and rectangle-versus-box agreement on rectangles with negative positions and odd or negative extents are recorded as well.'),
   design="§6 C13, §12"),
  "C14": dict(
-  technique=TRACE_TECH,
+  technique=SYM_TECH,
   text=("TLC checks on the specification, for random control points and parameters over Z_46337 (extrapolation included), that the Bernstein form equals de Casteljau and the power-basis form given by "
         "the coefficient matrices, that the derivative operator is the formal derivative (exact Taylor identity), that the split halves re-parametrise the curve on [0,t] and [t,1] and meet at its "
         "point, and that elevation, reversal, segment conversion, flips and matrix action preserve the curve as a function of t. Every evaluate/evaluate_derivative/split/matrix/conversion/"
         "matrix-times-curve call of the four curve types (both layouts, sizes n and n+1) is executed on exact rationals and recomputed by TLC (split via de Casteljau levels, independent of the code's "
-        "closed forms); the unit quarter circle and unit circle are sampled on f64/f32 and TLC checks radius (0.03 %), quadrant and end points in scaled integers."),
+        "closed forms); the unit quarter circle and unit circle are sampled on f64/f32 and TLC checks radius (0.03 %), quadrant and end points in scaled integers."
+        ' SYMBOLIC LANE (added): evaluate, evaluate_derivative and split of all four curve types are also executed with free symbols for every control point coordinate AND for the parameter; the returned polynomials equal the Bernstein / de Casteljau polynomials of the specification - every curve, every t, extrapolation included; reversal, flips, 2D<->3D and Mat2/3/4 * curve in both layouts likewise on symbolic matrices.'),
   design="§6 C14, §12"),
  "C15": dict(
   technique="TLA+ spec of the extremum/bounds/search/length contracts over exact rationals; derivative roots passed as witnesses that TLC verifies; results recorded from the real code validated by TLC trace validation",
@@ -132,7 +148,8 @@ CLAIMS = {
         "the exact minimum and maximum over [0,1] and check in exact rational arithmetic that min_*/max_*/*_bounds lie in [0,1] and attain them, that reported inflections are zeros of the "
         "derivative inside the interval and that aabr/aabb equal [min,max] per axis in curve coordinates. Closest-point search (both entry points) is checked in scaled integers: the returned "
         "point is the curve point at the returned parameter and no farther from the query than any coarse sample and the end point. Discretised length on f64 with TLC-verified chord/polygon "
-        "witnesses: chord <= L_n <= polygon and L_n <= L_2n. Curves with irrational derivative roots are not examined."),
+        "witnesses: chord <= L_n <= polygon and L_n <= L_2n. Curves with irrational derivative roots are not examined."
+        ' Degree-elevated f64 quadratics with non-dyadic coordinates (leading derivative coefficient a rounding residue) must have the closed-form bounding box of the quadratic (this check found defect D10, repaired).'),
   design="§6 C15, §12"),
  "C19": dict(
   technique="TLA+ spec of element placement (VekVec: conversions, swizzles, shuffles, colour tables) over opaque terms; calls recorded from the real code on an opaque-term element type validated structurally by TLC trace validation; all shuffle index tuples enumerated",
@@ -149,7 +166,8 @@ CLAIMS = {
         "TLC checks containment and collision against the squared-distance comparison incl. exact tangency, the bounding rectangle/box, diameter and the measures against pi. On exact rationals "
         "TLC checks segment projection against the clamped parametric minimiser and against 17 sampled points of the segment, distances as witnessed square roots, ray/triangle queries against "
         "Cramer's rule (Some(d) exactly when the line crosses the closed triangle non-parallelly, with that d) on rays aimed at interior points, edges, vertices, parallel and coplanar "
-        "directions, and that moving the other disk/sphere by the collision vector leaves the two exactly tangent on the same side."),
+        "directions, and that moving the other disk/sphere by the collision vector leaves the two exactly tangent on the same side."
+        ' Negative radii (a negative bound is never reached) and f32/f64 segments with non-dyadic coordinates (distance_to_point = distance to projected_point, also for points on the segment) are recorded as well.'),
   design="§6 C16, §12"),
  "C17": dict(
   technique="TLA+ spec (VekOpsCore/VekOps/VekOpsAlgo) model-checked by TLC exhaustively per bit width; TLC-emitted result tables replayed into the real code (spec->code conformance); the scaling laws that lift the 8-bit tables to the wide types proved for all integers with TLAPS (spec/Proof_Ops.tla); float/angle forms recorded from the code and validated by TLC (Trace_Ops)",
@@ -157,7 +175,8 @@ CLAIMS = {
         "statement and that the implementation-shaped algorithm models compute them without leaving the machine type; TLC then prints the declarative result "
         "for every value of i8/u8 per bound pair and the harness runs vek on every entry (all 20 integer/Wrapping types via scaled copies, all 13 vector types, "
         "scalar- and vector-bound forms, all API aliases); replaying a table on a wide type with operands scaled by 2^(bits-8) is justified by the scaling laws "
-        "of the operators, which the TLA+ proof system proves for all integers (524 obligations). Thorough enumerates all 2^24 triples per ternary function and signedness."),
+        "of the operators, which the TLA+ proof system proves for all integers (524 obligations). Thorough enumerates all 2^24 triples per ternary function and signedness."
+        ' delta_angle in radians is additionally exercised at exactly half a turn (the answer is +pi).'),
   design="§6 C17"),
 
  "C18": dict(
@@ -177,7 +196,8 @@ CLAIMS = {
         "(method and trait forms) on every vector type, on matrices in both layouts and on boxes, rectangles and segments, Zero/One/is_zero/Inv, and abs-diff/relative/ULP equality of vectors, "
         "matrices and quaternions (all float classes, near-threshold neighbours, tolerance pairs in both orders) against the conjunction of the scalar predicate are recorded and validated by "
         "TLC. TLC enumerates {std, libm} x (no feature, each of the 14 features, each pair in thorough, all 14); every configuration is built offline on stable together with a fixed probe "
-        "program and TLC validates that all were built, all succeeded and the probe's digest is identical under every configuration."),
+        "program and TLC validates that all were built, all succeeded and the probe's digest is identical under every configuration."
+        ' is_zero of matrices is exercised on the zero matrix, single non-zero elements (every other stored line entirely zero), single zero elements and single non-zero lines, both layouts.'),
   design="§6 C20, §12"),
 }
 
